@@ -87,6 +87,118 @@ func vC04ExtOne(o *vOut, in []byte, kind string) {
 	}
 }
 
+func vC04Ip6Render(e ExtendedCommunityInterface, err error) string {
+	if err != nil {
+		return "err"
+	}
+	s, ok := vC18Ip6Native(e)
+	if !ok {
+		return "unrenderable"
+	}
+	return "ok " + s
+}
+
+func vC04Ip6Octets(r *vRand) []byte {
+	b := vC18Bytes(r, 20)
+	if !r.chance(10) {
+		b[0] = byte(r.pick(0x00, 0x40, 0x80, 0x80, 0x81, 0x82, 0x01, 0x41, 0xc0, 0xff))
+	}
+	if !r.chance(20) {
+		b[1] = byte(r.pick(0x02, 0x03, 0x0b, 0x0b, 0x0c, 0x0d, 0x00, 0xff))
+	}
+	switch r.intn(6) {
+	case 0: // IPv4-mapped
+		copy(b[2:14], []byte{0, 0, 0, 0, 0, 0, 0, 0, 0, 0, 0xff, 0xff})
+	case 1: // unspecified
+		for i := 2; i < 18; i++ {
+			b[i] = 0
+		}
+	case 2: // link-local
+		b[2], b[3] = 0xfe, 0x80
+	}
+	return b
+}
+
+func vC04Ip6One(o *vOut, in []byte, kind string) {
+	buf := append([]byte(nil), in...)
+	e, err := ParseIP6Extended(buf)
+	res := vC04Ip6Render(e, err)
+	o.stat("x6dec_"+kind+"_"+strings.SplitN(res, " ", 3)[0], 1)
+	if strings.HasPrefix(res, "ok ") {
+		o.stat("x6dec_kind_"+strings.SplitN(res, " ", 3)[1], 1)
+	}
+	o.ask(res, "x6dec %s", vC18Hex(in))
+	if !bytes.Equal(buf, in) {
+		o.fail("c04ext-decoder-wrote-input", map[string]any{"in": vC18Hex(in)})
+	}
+	if err != nil || e == nil {
+		return
+	}
+	w, err := e.Serialize()
+	if err != nil || len(w) != 20 {
+		o.fail("c04ext-ip6-decoded-value-does-not-serialise-to-20", map[string]any{"in": vC18Hex(in), "type": fmt.Sprintf("%T", e), "err": fmt.Sprint(err), "n": len(w)})
+		return
+	}
+	e2, err2 := ParseIP6Extended(w)
+	if err2 != nil {
+		o.fail("c04ext-ip6-reserialised-value-rejected", map[string]any{"in": vC18Hex(in), "wire": vC18Hex(w)})
+		return
+	}
+	if w2, err3 := e2.Serialize(); err3 != nil || !bytes.Equal(w, w2) {
+		o.fail("c04ext-ip6-reserialise-not-fixpoint", map[string]any{"in": vC18Hex(in), "wire": vC18Hex(w), "wire2": vC18Hex(w2)})
+	}
+}
+
+func vC04Ip6Stream(o *vOut, r *vRand, n int) {
+	for ty := 0; ty < 256; ty++ { // every type octet x the sub-types the decoder looks at
+		for _, st := range []int{0, 2, 3, 0x0b, 0x0c, 0xff} {
+			b := vC18Bytes(r, 20)
+			b[0], b[1] = byte(ty), byte(st)
+			vC04Ip6One(o, b, "table")
+		}
+	}
+	for i := 0; i < n; i++ {
+		vC04Ip6One(o, append(vC04Ip6Octets(r), vC18Bytes(r, r.pick(0, 0, 1, 19, 20))...), "octets")
+		if i%8 == 0 {
+			vC04Ip6One(o, vC04Ip6Octets(r)[:r.intn(20)], "short")
+		}
+		if i%3 == 0 {
+			k := r.pick(0, 1, 2, 12, 13)
+			var v []byte
+			for j := 0; j < k; j++ {
+				v = append(v, vC04Ip6Octets(r)...)
+			}
+			if r.chance(20) {
+				v = append(v, vC18Bytes(r, 1+r.intn(19))...)
+			}
+			var hdr []byte
+			if len(v) > 255 {
+				hdr = []byte{0xd0, 25, byte(len(v) >> 8), byte(len(v))}
+			} else {
+				hdr = []byte{0xc0, 25, byte(len(v))}
+			}
+			a := &PathAttributeIP6ExtendedCommunities{}
+			err := a.DecodeFromBytes(append(hdr, v...))
+			res := "err"
+			if err == nil {
+				parts := []string{fmt.Sprintf("ok %d", len(a.Value))}
+				for _, x := range a.Value {
+					parts = append(parts, strings.TrimPrefix(vC04Ip6Render(x, nil), "ok "))
+				}
+				res = strings.Join(parts, " | ")
+				if len(a.Value)*20 != len(v) {
+					o.fail("c04ext-ip6-attribute-count-not-length-over-20", map[string]any{"value": vC18Hex(v), "n": len(a.Value)})
+				}
+				if w, err := a.Serialize(); err == nil && a.Len() != len(w) {
+					o.fail("c04ext-ip6-attribute-len-not-emitted", map[string]any{"value": vC18Hex(v), "len": a.Len(), "emitted": len(w)})
+				}
+			}
+			o.stat("x6decs_"+strings.SplitN(res, " ", 2)[0], 1)
+			o.ask(res, "x6decs %s", vC18Hex(v))
+		}
+	}
+}
+
 func TestVerifC04Ext(t *testing.T) {
 	o := vOpen(t)
 	defer o.close()
@@ -95,6 +207,7 @@ func TestVerifC04Ext(t *testing.T) {
 	if o.thorough {
 		n = 60000
 	}
+	vC04Ip6Stream(o, &vRand{s: o.seed*2147483647 + 43}, n/2)
 	// the complete (type, sub-type) table with two payloads each: 2 x 65536 asks in the thorough
 	// tier, the stratified types x all sub-types in the quick tier
 	for _, ty := range vC04ExtTypes {
